@@ -1027,6 +1027,17 @@ class Gen:
             else:
                 a = [self.num(-3e5, 3e5, 0), self.num(-3e5, 3e5, 0)]
                 b = [a[0] + r.choice([-1, 1]) * self.num(1e4, 5e5, 0), a[1] + self.num(-5e5, 5e5, 0)]
+            u = r.random()
+            if u < 0.15:
+                b = [b[0], a[1]]            # exactly along the first axis, in either direction
+            elif u < 0.3:
+                b = [a[0], a[1] + r.choice([-1, 1]) * (self.num(5, 30, 1) if spherical else self.num(1e4, 5e5, 0))]      # exactly along the second axis
+            elif u < 0.45 and spherical:
+                # across the prime meridian: one negative and one positive longitude
+                a = [-self.num(1, 30, 1), a[1]]
+                b = [self.num(1, 30, 1), b[1]]
+                if r.random() < 0.5:
+                    a, b = b, a
             w["cross section"] = [a, b]
         self.globals(w)
         w["features"] = []
